@@ -178,15 +178,23 @@ func canon(n goast.Node) string {
 }
 
 // goTypes parses and type-checks written Go; "" = accepted.
-func goTypes(exp g9cl.Exports, src string) (verdict, detail string) {
+func goTypes(exp g9cl.Exports, src string, extra ...g9cl.File) (verdict, detail string) {
 	fset := gotoken.NewFileSet()
 	f, err := goparser.ParseFile(fset, "out.go", src, 0)
 	if err != nil {
 		return "unparsable", err.Error()
 	}
+	files := []*goast.File{f}
+	for _, x := range extra { // the .go files of a mixed package are compiled together with the written Go
+		g, err := goparser.ParseFile(fset, x.Name, x.Src, 0)
+		if err != nil {
+			return "unparsable", err.Error()
+		}
+		files = append(files, g)
+	}
 	var errs []string
 	conf := types.Config{Importer: exp.Importer(fset), Error: func(e error) { errs = append(errs, e.Error()) }}
-	conf.Check(f.Name.Name, fset, []*goast.File{f}, nil)
+	conf.Check(f.Name.Name, fset, files, nil)
 	if len(errs) > 0 {
 		return "reject", strings.Join(errs, " | ")
 	}
@@ -294,7 +302,13 @@ func main() {
 		case r.Go == "":
 			cv = "ok-nowrite"
 		default:
-			gv, detail = goTypes(exp, r.Go)
+			var gofiles []g9cl.File
+			for _, x := range c.Files {
+				if strings.HasSuffix(x.Name, ".go") {
+					gofiles = append(gofiles, x)
+				}
+			}
+			gv, detail = goTypes(exp, r.Go, gofiles...)
 			if gv != "ok" && *dump {
 				detail += " ### " + r.Go
 			}
